@@ -58,7 +58,7 @@ NormCli(o, lastNotDisc) ==
 \* fields the harness cannot observe are carried over from the prediction
 StateOf(post, pred) ==
     [srv |-> [tick |-> post.srv.tick, frame |-> post.srv.frame, lastRun |-> pred.srv.lastRun,
-              running |-> post.srv.running, tickChanged |-> pred.srv.tickChanged,
+              running |-> post.srv.running, wasRunning |-> pred.srv.wasRunning, tickChanged |-> pred.srv.tickChanged,
               timerAcc |-> pred.srv.timerAcc, now |-> post.srv.now,
               world |-> [e \in Ents |-> NormEnt(post.srv.world[e])],
               remEv |-> pred.srv.remEv,
@@ -125,6 +125,8 @@ Predict(cur, r) ==
          [] r.ev = "EmitC"      -> Plain(P!EmitCF(cur, a.c, [t |-> a.t, id |-> a.id, e |-> a.e]), TRUE)
          [] r.ev = "DeliverEvS" -> Plain(P!DeliverEvSF(cur, a.c, a.t, a.pos + 1), P!DeliverEvSEnabled(cur, a.c, a.t, a.pos + 1))
          [] r.ev = "DeliverEvC" -> Plain(P!DeliverEvCF(cur, a.c, a.t, a.pos + 1), P!DeliverEvCEnabled(cur, a.c, a.t, a.pos + 1))
+         [] r.ev = "Stop"       -> Plain(P!StopEvF(P!StopF(cur)), P!StopEnabled(cur))
+         [] r.ev = "Start"      -> Plain(P!StartF(cur), P!StartEnabled(cur))
          [] r.ev = "Authorize"  -> Plain(P!AuthorizeF(cur, a.c), cur.srv.cl[a.c].conn)
          [] r.ev = "DeliverUpd" -> Plain(P!DeliverUpdF(cur, a.c), P!DeliverUpdEnabled(cur, a.c))
          [] r.ev = "DeliverMut" -> Plain(P!DeliverMutF(cur, a.c, a.pos + 1), P!MutEnabled(cur, a.c, a.pos + 1))
@@ -149,7 +151,9 @@ GhostStep(gg, r, obs, ran) ==
         g2 == IF r.ev = "SrvFrame" /\ ran THEN P!GhostSnap(g1, obs) ELSE g1
         g3 == IF r.ev = "SetVis" THEN P!GhostSetVis(g2, r.args.c, r.args.e, r.args.v) ELSE g2
         g4 == IF r.ev = "Connect" THEN [g3 EXCEPT !.lastSet[r.args.c] = <<>>] ELSE g3
-    IN g4
+        \* a restarted server counts its ticks from 0 again: the snapshots of the old run are void
+        g5 == IF r.ev = "Stop" THEN [g4 EXCEPT !.snap = <<>>, !.visAt = <<>>] ELSE g4
+    IN g5
 
 ----------------------------------------------------------------------------
 (* observations of one step, in the vocabulary of PropsE *)
